@@ -118,10 +118,23 @@ def run(ctx):
         if k > 1 and rng.random() < 0.4:
             runs[1] = dict(runs[0])          # equal formatting: collapsing merges the wrappers
         docs.append(runs)
+    # neighbours that differ in EXACTLY ONE property (each of the ten in turn, both orders; two different highlight colours), every mapping
+    # in force: whatever treats runs as interchangeable because they "look the same" shows here
+    forced = set()
+    single = [(name, "true", "absent") for _, name in TOGGLES] + [("underline", "single", "absent"), ("underline", "double", "none"),
+              ("valign", "superscript", None), ("valign", "subscript", "superscript"), ("valign", "subscript", "baseline"),
+              ("highlight", "yellow", "absent"), ("highlight", "yellow", "red"), ("highlight", "darkBlue", "none"), ("highlight", "red", "bare")]
+    for name, on, off in single:
+        base = rand_props(rng) if rng.random() < 0.5 else {}
+        a_, b_ = dict(base), dict(base)
+        a_[name], b_[name] = on, off
+        for pair in ([a_, b_], [b_, a_], [a_, b_, dict(a_)]):
+            forced.add(len(docs))
+            docs.append(pair)
     terms, metas = [], []
     dist = {"documents": 0, "runs": 0, "runs_with_formatting": 0, "neighbours_equal": 0, "override_sets": {}}
     for i, runs in enumerate(docs):
-        overrides = [k for k in OVERRIDES if rng.random() < 0.35]
+        overrides = [k for k in OVERRIDES if rng.random() < 0.35 or i in forced]
         rng.shuffle(overrides)
         key = ",".join(sorted(overrides))
         dist["override_sets"][key] = dist["override_sets"].get(key, 0) + 1
